@@ -106,6 +106,9 @@ struct MsgSpec
     uint64_t junk{0};  // seeds values for packet fields the encoder must ignore (device, stream, counter, other id)
 };
 
+// a packet assembled through the public API (setPayload + setters), e.g. for direct Status::update calls
+PacketRef makePacket(const MsgSpec& m, uint16_t dev, uint8_t stream);
+
 class Enc
 {
 public:
